@@ -43,6 +43,8 @@ fn main() {
         v
     } else if let Some(v) = k2d::run3(&kernel, &a) {
         v
+    } else if let Some(v) = k2d::run4(&kernel, &a) {
+        v
     } else if let Some(v) = kmesh::run(&kernel, &a) {
         v
     } else if let Some(v) = kseries::run(&kernel, &a) {
